@@ -166,10 +166,34 @@ def mk_request(rng, kind, n_st, sender, net):
     return ev
 
 
+def repeat_of(rng, old, fresh):
+    """A request that repeats an earlier one of the same station (an application that sends the same message again - a
+    heartbeat, an empty payload, a retry - issues two requests, and the property owes a delivery to each of them).
+    'exact': equal in every field; 'near': same payload, ports, transport and destination/area, but the parameters a receiver's
+    handler cannot tell apart (traffic class, hop limit, lifetime) are those of the freshly drawn request; 'payload': only
+    the payload octets are re-used, everything else is fresh (another port / transport of the same sender)."""
+    how = rng.choice(["exact", "exact", "exact", "near", "payload"]) if fresh is not None else "exact"
+    if how == "payload":
+        ev = dict(fresh)
+        ev["r"] = dict(fresh["r"])
+        ev["payload"] = old["payload"]
+    else:
+        ev = dict(old)
+        ev["r"] = dict(old["r"])
+        if how == "near":
+            for f in ("req_ms", "req_hl", "off", "tcid"):
+                ev["r"][f] = fresh["r"][f]
+    ev["repeat"] = how
+    ev["repeat_of"] = old["rid"]
+    return ev
+
+
 def scenario(ctx, n_st, topo, alg, n_req, know_each_other, pileup=False):
     """pileup: station 0 issues all requests as GeoUnicast to station 1, which it does not know; between the requests it
     only hears beacons of a third station (every reception refreshes its location table), so that several requests wait for
-    one location-service lookup; everything is delivered afterwards"""
+    one location-service lookup; everything is delivered afterwards.
+    In every scenario a share of the requests repeats an earlier request of the same station (see repeat_of): the quantifier
+    ranges over all payloads and all request orders, so equal messages in one history belong to it."""
     rng = ctx.rng
     net = Net(ctx, n_st, topo, alg)
     if know_each_other:
@@ -186,6 +210,14 @@ def scenario(ctx, n_st, topo, alg, n_req, know_each_other, pileup=False):
         ev = mk_request(rng, kind, n_st, sender, net)
         if pileup:
             ev["dest"], ev["dest_idx"] = (0, net.st[1].st, net.st[1].mid), 1
+        if requests and rng.random() < (0.45 if pileup else 0.15):
+            # repeat a request of this sender (preferably a recent one: it may still wait for its location lookup)
+            mine = [e for (s0, e) in requests if s0 == sender]
+            if mine:
+                old = mine[-1] if rng.random() < 0.5 else rng.choice(mine)
+                ev = repeat_of(rng, old, None if pileup and rng.random() < 0.5 else ev)
+                kind = ev["kind"]
+                ctx.count(1, f"req_repeated_{ev['repeat']}")
         ev["rid"] = rid
         requests.append((sender, ev))
         obs = net.do(sender, ev)
@@ -210,69 +242,98 @@ def scenario(ctx, n_st, topo, alg, n_req, know_each_other, pileup=False):
             net.tick(rng.choice([20, 50, 300]))      # >= 20 ms: keeps the packet data rate below the B.2 limiter
     net.pump(fire_ls=True)
     # ------------------------------------------------------------------ oracle
+    # Requests of one station that carry the same octets to the same port with the same port information cannot be told
+    # apart by a handler. They form a group, and the handlers owe the group one delivery for EACH of its requests that is
+    # due at that receiver (exactly once per request - a repeated message is delivered as often as it was handed over).
+    # A request whose content is unique in the history is a group of one.
+    groups = {}
     for sender, ev in requests:
-        s = net.st[sender]
+        groups.setdefault((sender, ev["payload"], _port_key(ev)), []).append(ev)
+
+    def want_of(sender, ev, j, r):
+        """deliveries the property demands at station j for this request; None = no verdict"""
         kind = ev["kind"]
+        if j == sender:
+            want = 0
+        elif kind == "shb":
+            want = 1 if (j in net.links[sender]) else 0
+        elif kind in ("gbc", "gac"):
+            f = rs.f_value(ev["area"], r.ego[4], r.ego[5])
+            if abs(f) < 1e-6:
+                return None
+            want = 1 if f >= 0 else 0
+        else:
+            want = 1 if ev.get("dest_idx") == j else 0
+        if ev["p1"] not in r.ports:
+            want = 0
+        if topo == "line" and want and kind != "shb":
+            # multi-hop: the receiver must be within the hop budget of the request (else no verdict)
+            hl = ev["r"]["req_hl"] if ev["r"]["req_hl"] > 1 else 10
+            if abs(sender - j) > hl:
+                return None
+        return want
+
+    for (sender, payload, pkey), evs in groups.items():
+        s = net.st[sender]
         for j, r in enumerate(net.st):
-            got = [(p, i) for (p, i) in r.btp_deliveries if i.data == ev["payload"] and _from(i, s)
-                   and _ports_match(i, ev)]
-            inp = _inp(ev, sender, net, receiver=j)
-            if j == sender:
-                want = 0
-            elif kind == "shb":
-                want = 1 if (j in net.links[sender]) else 0
-            elif kind in ("gbc", "gac"):
-                f = rs.f_value(ev["area"], r.ego[4], r.ego[5])
-                if abs(f) < 1e-6:
-                    continue
-                want = 1 if f >= 0 else 0
-                if topo == "line" and want and kind == "gbc":
-                    want = 1
-            else:
-                want = 1 if ev.get("dest_idx") == j else 0
-            if ev["p1"] not in r.ports:
-                want = 0
-            if topo == "line" and want and kind != "shb":
-                # multi-hop: the receiver must be within the hop budget of the request (else no verdict)
-                hl = ev["r"]["req_hl"] if ev["r"]["req_hl"] > 1 else 10
-                if abs(sender - j) > hl:
-                    continue
-            # identical payloads of different requests are indistinguishable: only count when unique
-            same = [1 for (s2, e2) in requests if e2["payload"] == ev["payload"] and e2["p1"] == ev["p1"]]
-            if len(same) > 1:
+            got = [(p, i) for (p, i) in r.btp_deliveries if i.data == payload and _from(i, s) and _ind_port_key(i) == pkey]
+            wants = [want_of(sender, ev, j, r) for ev in evs]
+            if any(w is None for w in wants):
                 continue
+            want = sum(wants)
+            inp = _inp(evs[0], sender, net, receiver=j)
+            if len(evs) > 1:
+                inp["equal_requests"] = [{"rid": e["rid"], "kind": e["kind"], "due": w} for e, w in zip(evs, wants)]
+                ctx.count(1, "verdict_on_group_of_equal_requests")
             if len(got) != want:
                 cls = "delivery_missing" if len(got) < want else ("delivered_twice" if want else "delivered_wrongly")
-                ctx.property_failure(cls, inp, f"{len(got)} deliveries to the handler of port {ev['p1']} at station {j}, "
-                                     f"expected {want}", want, len(got))
+                ctx.property_failure(cls, inp, f"{len(got)} deliveries to the handler of port {pkey[0]} at station {j}, "
+                                     f"expected {want}" + (f" (one for each of the {want} equal requests that are due there)"
+                                                           if len(evs) > 1 else ""), want, len(got))
+            kinds = sorted({e["kind"] for e in evs})
             for (p, i) in got:
-                if p != ev["p1"]:
-                    ctx.property_failure("wrong_port", inp, "delivered to the handler of another port", ev["p1"], p)
+                if p != pkey[0]:
+                    ctx.property_failure("wrong_port", inp, "delivered to the handler of another port", pkey[0], p)
                 pv = i.gn_source_position_vector
-                spv = s.router.ego_position_vector
                 if (pv.latitude, pv.longitude, stack.addr_tuple(pv.gn_addr)) != (s.ego[4], s.ego[5], (0, s.st, s.mid)):
                     ctx.property_failure("source_pv", inp, "indication does not carry the sender's position vector",
                                          [s.ego[4], s.ego[5]], [pv.latitude, pv.longitude])
                 ht = i.gn_packet_transport_type.header_type.value
-                if ht != {"shb": 5, "gbc": 4, "gac": 3, "guc": 2}[kind]:
-                    ctx.property_failure("transport_type", inp, "indication reports another transport type", kind, ht)
-            if want:
-                ctx.nontriv(("c01", kind, ev["btp_type"], ev["p1"], len(ev["payload"]), j))
+                if len(kinds) == 1 and ht != _HT[kinds[0]]:
+                    ctx.property_failure("transport_type", inp, "indication reports another transport type", kinds[0], ht)
+            if len(kinds) > 1 and len(got) == want:
+                # equal content over several transports: the transport types reported must be those of the due requests
+                exp_ht = sorted(_HT[e["kind"]] for e, w in zip(evs, wants) if w)
+                got_ht = sorted(i.gn_packet_transport_type.header_type.value for (_, i) in got)
+                if exp_ht != got_ht:
+                    ctx.property_failure("transport_type", inp, "indications report other transport types", exp_ht, got_ht)
+            for e, w in zip(evs, wants):
+                if w:
+                    ctx.nontriv(("c01", e["kind"], e["btp_type"], e["p1"], len(e["payload"]), j))
+            if len(evs) > 1 and want > 1:
+                ctx.nontriv(("c01-equal-requests", tuple(kinds), want, len(payload) > 0))
     # wrong-port / stray deliveries: everything delivered must stem from a request with that port and payload
     for j, r in enumerate(net.st):
         for (p, i) in r.btp_deliveries:
             if not any(e["payload"] == i.data and e["p1"] == p for (_, e) in requests):
                 ctx.property_failure("stray_delivery", {"receiver": j, "port": p, "data": i.data.hex()[:80]},
                                      "a handler received data nobody sent to its port", None, None)
-    # order per (sender, receiver, port) for unicast: deliveries follow the request order
+    # order per (sender, receiver, port) for unicast: deliveries follow the request order. Equal requests are matched to
+    # deliveries first-to-first (if any matching is in request order, this one is)
     for j, r in enumerate(net.st):
+        waiting = {}
+        for (snd, e) in requests:
+            if e["kind"] == "guc" and e.get("dest_idx") == j:
+                waiting.setdefault((snd, e["payload"], _port_key(e)), []).append(e["rid"])
         seq = {}
         for (p, i) in r.btp_deliveries:
-            for (snd, e) in requests:
-                if (e["kind"] == "guc" and e.get("dest_idx") == j and e["payload"] == i.data and e["p1"] == p
-                        and _from(i, net.st[snd])
-                        and len([1 for (_, e2) in requests if e2["payload"] == e["payload"] and e2["p1"] == p]) == 1):
-                    seq.setdefault((snd, p), []).append(e["rid"])
+            if i.gn_packet_transport_type.header_type.value != _HT["guc"]:
+                continue
+            for snd, s in enumerate(net.st):
+                if _from(i, s):
+                    q = waiting.get((snd, i.data, _ind_port_key(i)))
+                    if q:
+                        seq.setdefault((snd, p), []).append(q.pop(0))
                     break
         for key, rids in seq.items():
             if rids != sorted(rids):
@@ -288,10 +349,16 @@ def _from(ind, s):
     return stack.addr_tuple(ind.gn_source_position_vector.gn_addr)[2] == s.mid
 
 
-def _ports_match(ind, ev):
-    if ev["btp_type"] == 1:
-        return ind.destination_port == ev["p1"] and ind.source_port == ev["p2"]
-    return ind.destination_port == ev["p1"] and ind.destination_port_info == ev["p2"]
+_HT = {"shb": 5, "gbc": 4, "gac": 3, "guc": 2}
+
+
+def _port_key(ev):
+    """what a handler sees of the ports of a request: (destination port, source port [BTP-A], port info [BTP-B])"""
+    return (ev["p1"], ev["p2"], 0) if ev["btp_type"] == 1 else (ev["p1"], 0, ev["p2"])
+
+
+def _ind_port_key(ind):
+    return (ind.destination_port, ind.source_port or 0, ind.destination_port_info or 0)
 
 
 def _inp(ev, sender, net, receiver=None):
@@ -309,7 +376,10 @@ def run(ctx):
                 "hemispheres, SIMPLE and CBF; seeded sequences of SHB / GBC / GAC / GUC requests through the real BTP router "
                 "(BTP-A and BTP-B, ports {0, 2001, 2002, 4660, 65535}, payload lengths {0,1,2,5,37,255,256,900,1200,1394}), "
                 "with and without prior beacons (unicast then goes through the location service, several requests may pile up "
-                "before the reply); deliveries at every station checked for exactly-once, octet identity, port, port info, "
+                "before the reply); a share of the requests repeats an earlier request of the same station (equal in every field, "
+                "equal up to traffic class / hop limit / lifetime, or the same octets on another port or transport); "
+                "deliveries at every station checked for exactly-once per request (equal requests: as many deliveries as "
+                "requests), octet identity, port, port info, "
                 "source position vector, transport type and per-destination order; every station replayed on the model; "
                 "non-trivial = a delivery was due; distinct by (kind, btp type, port, length, receiver)")
     rs.stack.patch_time()
